@@ -2,11 +2,15 @@ import props
 
 CONFIG = {
     "runs": props.simple("c02", 150, 2500),
-    "status": "partial (in progress): C02_countsA_is_MCA proved (spec-level count with zeroed complementary leaves = "
-              "number of models containing A, all WF circuits / all in-range lists); the theorem that execute_query "
-              "(marker strategy with the divide-the-cached-product shortcut, default strategy, core shortcuts) computes "
-              "countsA from every Clean state is being proved; until then the algorithms are tied by the correspondence "
-              "(model = implementation on every request) and the truth-table oracle",
+    "status": "proved (full): C02_execute_query_correct -- for every WFQ circuit (WF + unique leaves + all nodes reachable "
+              "+ nonzero literals, all established by check_wf), every in-range literal list A (any length/order/repetition, "
+              "contradictory, core and dead literals) and every Clean scratch state (markers false, md empty, temps/pds arbitrary), "
+              "the model of Ddnnf::execute_query (0 -> cached count; 1 -> core shortcuts / single marker run; 2..20 -> marker "
+              "strategy incl. the divide-the-cached-product shortcut; >20 -> default recomputation; reduce_query / query_is_not_sat) "
+              "returns MCA C n A (truth-table count) and re-establishes Clean. Corollaries: C02_strategy_independent (marker and "
+              "default strategy both = MCA on every list), C16_count_history_independent (answer from any Clean state = answer from "
+              "the fresh state), C02_split (MCA A = MCA (x::A) + MCA (-x::A)), C02_countsA_is_MCA. No axioms. The model is tied to "
+              "the Rust by the correspondence run (model = implementation on every request) and the truth-table oracle",
     "assumptions": [
         "assumption literals within 1..n",
         "all 3^n consistent partial assignments for n <= 4 (quick) / 6 (thorough), random lists with duplicates and contradictions of lengths 0,1,2,3,19,20,21,22,40",
